@@ -530,7 +530,20 @@ func (e *FloatExp) MarshalJSON() ([]byte, error) {
 		return []byte("null"), nil
 	}
 	var buf [68]byte
-	return strconv.AppendFloat(buf[:0], e.Value, 'g', -1, 64), nil
+	return e.appendJSON(buf[:0]), nil
+}
+
+// appendJSON appends the JSON representation of the value.
+//
+// A float literal with an integral value which fits in an int64 is accepted
+// as the value of an int parameter (see BuiltinType.IsValidExpression), so
+// such values must be written as a valid JSON integer, e.g. 1000000 rather
+// than 1e+06.
+func (e *FloatExp) appendJSON(buf []byte) []byte {
+	if i := int64(e.Value); float64(i) == e.Value {
+		return strconv.AppendInt(buf, i, 10)
+	}
+	return strconv.AppendFloat(buf, e.Value, 'g', -1, 64)
 }
 
 func (e *FloatExp) jsonSizeEstimate() int {
@@ -543,7 +556,7 @@ func (e *FloatExp) EncodeJSON(buf *bytes.Buffer) error {
 		return err
 	}
 	var b [68]byte
-	_, err := buf.Write(strconv.AppendFloat(b[:0], e.Value, 'g', -1, 64))
+	_, err := buf.Write(e.appendJSON(b[:0]))
 	return err
 }
 
